@@ -178,6 +178,19 @@ CLAIMED = {
   note="Lean kernel; printer / parser models are hand-written (tied by the two-way correspondence); 0- and 1-tuples have no syntax; the model "
        "lexer rejects characters outside the printed alphabet where the scannerless grammar would stop (only printed types are compared).",
   technique="Lean 4 model of printer and parser with partial round-trip theorems + two-way print/parse correspondence", ref="DESIGN.md §6 C15"),
+ "C20": dict(
+  text="Lean 4 theorems over the model of parse_int_with_radix and of the `{:?}` / unescaper 0.1.5 pair: an integer literal in any of "
+       "the four radixes denotes its positional value when that is <= 2^63 - 1 (<= 2^63 behind a minus sign, so MIN_INT reads back) "
+       "and is rejected otherwise, whatever underscores it contains (with boundary instances); each escape the printer emits for "
+       "the modelled (ASCII) class is read back as the character it stands for, checked exhaustively over all 128 code points with "
+       "digit / letter / empty continuations (kernel `decide`). The round trip of whole nested values is NOT proved: it is checked "
+       "on generated values in both directions between model and implementation - the implementation's debug text vs. the model "
+       "printer, the text read by Variable::from_str vs. the model reader and run as a program - and integer literal forms are "
+       "compared with their mathematical value computed in Python.",
+  note="Lean kernel; float text is an opaque token (Rust's guarantee that `{:?}` of a finite f64 re-parses to the same value is assumed and "
+       "sampled); characters outside ASCII are covered by the oracle only (Rust's grapheme-extend / printable tables are not modelled); "
+       "structs are outside the property.",
+  technique="Lean 4 proof (integer literals, escape table) + two-way text correspondence + literal-value oracle", ref="DESIGN.md §6 C20"),
 }
 NOT_YET = "machinery for this property is not built yet in this round (planned, see DESIGN.md §6)"
 
